@@ -397,7 +397,7 @@ Corollary effective_time_order_preserving rows :
   needs_sorting rows = false -> process_file false None None rows = Ok (spec_file rows).
 Proof. intro H. rewrite <- (effective_time rows None None H). reflexivity. Qed.
 
-(* RECORD OF THE REPAIRED DEFECT C10-F1: for the unrepaired code the statement is false -- a tie order that
+(* RECORD OF THE REPAIRED DEFECT C10-F1 (behaviour before fix commit 29fcd01): for the unrepaired code the statement was false -- a tie order that
    the platform's sort may legitimately return (it is a sorting order) gives another outcome *)
 Definition f1_rows : list row :=
   [mkRow 1 [] [(NoDelay, Some (mk Onset nA))]; mkRow 1 [] [(NoDelay, Some (mk Offset nA))]].
